@@ -22,7 +22,7 @@ pub fn dump_rel(d: &str) -> Vec<(u16, String)> {
 }
 pub fn dump_lines(d: &str) -> Vec<(usize, u16)> {
     let Some(f) = dump_field(d, "M") else { return vec![] };
-    f.split(',').filter(|x| !x.is_empty()).map(|e| { let (l, a) = e.split_once(':').unwrap(); (l.parse().unwrap(), u16::from_str_radix(a, 16).unwrap()) }).collect()
+    f.split(',').filter(|x| !x.is_empty()).flat_map(|e| { let (l, a) = e.split_once(':').unwrap(); let l: usize = l.parse().unwrap(); a.split('.').filter(|x| !x.is_empty()).enumerate().map(move |(i, w)| (l.wrapping_add(i), u16::from_str_radix(w, 16).unwrap())).collect::<Vec<_>>() }).collect()
 }
 pub fn dump_src(d: &str) -> Option<String> { let i = d.find("] T")?; let h = d[i + 3..].trim_end_matches(']'); Some(unhex_str(h)) }
 
@@ -256,4 +256,260 @@ pub fn c21(out: &mut Out, ex: &mut Exec, seed: u64, thorough: bool) {
 
 pub fn parse_blocks(f: &str) -> Vec<(u16, Vec<Option<u16>>)> {
     f.split(';').filter(|x| !x.is_empty()).map(|b| { let (a, ws) = b.split_once(':').unwrap(); (u16::from_str_radix(a, 16).unwrap(), ws.split(',').filter(|x| !x.is_empty()).map(|w| if w == "_" { None } else { Some(u16::from_str_radix(w, 16).unwrap()) }).collect()) }).collect()
+}
+
+/// text of a slot's printed statement for a word (from `disasm`)
+fn image_of(dump: &str) -> BTreeMap<u16, Option<u16>> {
+    parse_blocks(dump_field(dump, "B").unwrap_or("")).into_iter().flat_map(|(a, ws)| ws.into_iter().enumerate().map(move |(i, w)| (a.wrapping_add(i as u16), w))).collect()
+}
+
+/// C07: every word disassembles to text that reassembles to the same word
+pub fn c07(out: &mut Out, ex: &mut Exec, seed: u64, thorough: bool) {
+    let mut rng = Rng::new(seed);
+    let origins = [0x3000u16, 0x0000, 0xFDFF, 0x8123];
+    for w in 0..=0xFFFFu32 {
+        let d = run(out, ex, &format!("disasm {:04x}", w));
+        let t = unhex_str(&d);
+        let n_or = if thorough { origins.len() } else if w % 16 == 0 { 2 } else { 1 };
+        for k in 0..n_or {
+            let o = if thorough { origins[k] } else { origins[(w as usize + k + rng.below(2) as usize) % origins.len()] };
+            let src = format!(".orig x{:04X}\n{}\n.end\n", o, t);
+            let line = format!("asm s 0 {}", hx(&src));
+            let r = run(out, ex, &line); out.evaluations += 1;
+            let want = format!("ok B[{:04x}:{:04x}] S[none]", o, w);
+            if r != want { out.fail(out.lines, format!("word x{:04X} disassembles to {:?}, which assembles at x{:04X} to `{}`", w, t, o, r.chars().take(80).collect::<String>()), format!("disasm {:04x}\n{line}", w)); }
+        }
+        let kind = if t.starts_with(".fill") { "fill".to_string() } else { t.split(' ').next().unwrap_or("").to_string() };
+        out.hist.hit(&format!("as_{kind}"));
+        if w < 0x200 && !t.starts_with(".fill") { out.fail(out.lines, format!("word x{:04X} (< x0200) disassembled as {:?}, not .fill", w, t), format!("disasm {:04x}", w)); }
+    }
+    for (w, name) in [(0xC1C0u16, "RET"), (0xF025, "HALT"), (0xF020, "GETC"), (0xF021, "PUTC"), (0xF022, "PUTS"), (0xF023, "IN"), (0xF024, "PUTSP"), (0x8000, "RTI")] {
+        let t = unhex_str(&ex.line(&format!("disasm {:04x}", w))); if t != name { out.fail(out.lines, format!("alias word x{:04X} printed as {:?}, expected {name}", w, t), format!("disasm {:04x}", w)); } }
+    out.exhaustive = true; out.nontrivial = 65536;
+    out.rule = format!("all 65536 words: disassemble_line + Display (compared with the model's disassembler/printer), the text assembled inside .orig/.end at {} (origins x3000, x0000, xFDFF, x8123) must give exactly that word; words below x0200 must come back as .fill, alias words by name", if thorough { "every one of 4 origins" } else { "1-2 of 4 origins per word" });
+}
+
+/// a set of files for linking: disjoint regions by default, optional shared/conflicting labels, externals, overlaps
+pub struct LinkSet { pub files: Vec<Vec<GStmt>>, pub note: Vec<&'static str> }
+
+pub fn gen_linkset(rng: &mut Rng, k: usize, debug_mix: bool) -> LinkSet {
+    let _ = debug_mix;
+    let mut files: Vec<Vec<GStmt>> = vec![]; let mut note = vec![]; let mut all_names: Vec<String> = vec![]; let mut defs: Vec<Vec<String>> = vec![];
+    for i in 0..k {
+        let nn = rng.below(3) as usize; let names = fresh_names(rng, nn, &all_names); all_names.extend(names.iter().cloned()); defs.push(names);
+        let _ = i;
+    }
+    for i in 0..k {
+        // externals: labels defined by other files (sometimes nobody defines them)
+        let mut externals: Vec<String> = vec![];
+        for j in 0..k { if j != i { for n in &defs[j] { if rng.chance(1, 3) { externals.push(n.clone()); } } } }
+        if rng.chance(1, 6) { externals.push("NOBODY".into()); note.push("external nobody defines"); }
+        let base = 0x3000 + 0x1000 * i as u32;
+        let b2 = base + 0x400 + rng.below(0x200) as u32; let f = gen_file(rng, &FileCfg { origins: vec![base, b2], names: defs[i].clone(), externals, max_stmts: 10, data_bias: 4 });
+        files.push(f);
+    }
+    // variations
+    match rng.below(8) {
+        0 => { // conflicting label: the same name at different addresses in two files
+            let (a, b) = (0, 1 + rng.below(k as u64 - 1) as usize);
+            for f in [a, b] { let pos = files[f].iter().position(|s| s.size > 0).unwrap(); files[f][pos].labels.push(if f == a { "Clash".into() } else { "CLASH".into() }); }
+            note.push("conflicting label"); }
+        1 => { // overlapping blocks: a block of file b placed inside file a's first block
+            let la = layout(&files[0]); if let Some(&(st, len, _)) = la.blocks.first() { let at = st + rng.below(len as u64) as u32;
+                let b = 1 + rng.below(k as u64 - 1) as usize; files[b].push(GStmt { labels: vec![], mnem: ".orig".into(), ops: vec![Op::ImmU(at)], size: 0 }); files[b].push(GStmt { labels: vec![], mnem: ".fill".into(), ops: vec![Op::ImmU(1)], size: 1 }); files[b].push(GStmt { labels: vec![], mnem: ".end".into(), ops: vec![], size: 0 }); note.push("overlapping blocks"); } }
+        2 => { // touching blocks and the same label at the same address from both sides
+            let la = layout(&files[0]); if let Some(&(st, len, oi)) = la.blocks.first() { let end = st + len;
+                let epos = files[0].iter().enumerate().position(|(i, s)| i > oi && mn(s) == ".END").unwrap(); files[0][epos].labels.push("Seam".into());
+                let b = 1 + rng.below(k as u64 - 1) as usize; files[b].push(GStmt { labels: vec![], mnem: ".orig".into(), ops: vec![Op::ImmU(end)], size: 0 }); files[b].push(GStmt { labels: vec!["SEAM".into()], mnem: ".fill".into(), ops: vec![Op::ImmU(2)], size: 1 }); files[b].push(GStmt { labels: vec![], mnem: ".end".into(), ops: vec![], size: 0 }); note.push("touching blocks with a shared label"); } }
+        3 => { // the same block start in two files
+            let la = layout(&files[0]); if let Some(&(st, _, _)) = la.blocks.first() { let b = 1 + rng.below(k as u64 - 1) as usize; files[b].push(GStmt { labels: vec![], mnem: ".orig".into(), ops: vec![Op::ImmU(st)], size: 0 }); files[b].push(GStmt { labels: vec![], mnem: ".blkw".into(), ops: vec![Op::ImmU(1)], size: 1 }); files[b].push(GStmt { labels: vec![], mnem: ".end".into(), ops: vec![], size: 0 }); note.push("same block start"); } }
+        _ => {}
+    }
+    LinkSet { files, note }
+}
+
+/// reference result of linking a set of well-formed files (order-free)
+pub struct LinkExpect { pub ok: bool, pub image: BTreeMap<u16, Option<u16>>, pub labels: BTreeMap<String, (u16, bool)>, pub rel: Vec<(u16, String)> }
+pub fn link_expect(files: &[Vec<GStmt>]) -> LinkExpect {
+    let exps: Vec<Expected> = files.iter().map(|f| expected(f)).collect();
+    let mut ok = true;
+    let blocks: Vec<(u32, u32)> = exps.iter().flat_map(|e| e.blocks.iter().map(|b| (b.0 as u32, b.1.len() as u32))).collect();
+    for i in 0..blocks.len() { for j in i + 1..blocks.len() { let (a, b) = (blocks[i], blocks[j]); if a.0 < b.0 + b.1 && b.0 < a.0 + a.1 { ok = false; } } }
+    let mut labels: BTreeMap<String, (u16, bool)> = BTreeMap::new();
+    for e in &exps { for (n, (a, x)) in &e.labels { match labels.get(n).copied() { None => { labels.insert(n.clone(), (*a, *x)); } Some((a0, x0)) => { if x0 && !*x { labels.insert(n.clone(), (*a, false)); } else if !x0 && !*x && a0 != *a { ok = false; } } } } }
+    let mut image = BTreeMap::new(); for e in &exps { for (a, ws) in &e.blocks { for (i, w) in ws.iter().enumerate() { image.insert(a.wrapping_add(i as u16), *w); } } }
+    let mut rel = vec![];
+    for e in &exps { for (a, n) in &e.rel { if labels[n].1 { rel.push((*a, n.clone())); } else { image.insert(*a, Some(labels[n].0)); } } }
+    rel.sort();
+    LinkExpect { ok, image, labels, rel }
+}
+
+/// every way of linking files 0..k: (expression tree as a list of `link` ops, name of the result slot)
+pub fn link_plans(k: usize, rng: &mut Rng, max_plans: usize) -> Vec<Vec<(String, String, String)>> {
+    // permutations, left-nested; plus for k>=3 right-nested and balanced bracketings of some permutations
+    fn perms(k: usize) -> Vec<Vec<usize>> { let mut out = vec![]; let mut a: Vec<usize> = (0..k).collect(); fn go(a: &mut Vec<usize>, n: usize, out: &mut Vec<Vec<usize>>) { if n == 1 { out.push(a.clone()); return; } for i in 0..n { go(a, n - 1, out); if n % 2 == 0 { a.swap(i, n - 1); } else { a.swap(0, n - 1); } } } go(&mut a, k, &mut out); out }
+    let mut plans = vec![];
+    for p in perms(k) {
+        let mut ops = vec![]; let mut acc = format!("f{}", p[0]); for (i, x) in p.iter().enumerate().skip(1) { let dst = format!("t{i}"); ops.push((dst.clone(), acc.clone(), format!("f{x}"))); acc = dst; } plans.push(ops);
+        if k >= 3 { let mut ops = vec![]; let mut acc = format!("f{}", p[k - 1]); for i in (0..k - 1).rev() { let dst = format!("t{i}"); ops.push((dst.clone(), format!("f{}", p[i]), acc.clone())); acc = dst; } plans.push(ops); }
+        if k == 4 { plans.push(vec![("ta".into(), format!("f{}", p[0]), format!("f{}", p[1])), ("tb".into(), format!("f{}", p[2]), format!("f{}", p[3])), ("tc".into(), "ta".into(), "tb".into())]); }
+    }
+    while plans.len() > max_plans { let i = rng.below(plans.len() as u64) as usize; plans.swap_remove(i); }
+    plans
+}
+
+/// C20 (order independence, union, externals) and C22 (debug info after linking)
+pub fn c20(out: &mut Out, ex: &mut Exec, seed: u64, thorough: bool, debug_info: bool) {
+    let mut rng = Rng::new(seed); let n = if thorough { 6_000 } else { 400 }; let mut seen = HashSet::new();
+    for _ in 0..n {
+        let k = if debug_info { 2 + rng.below(2) as usize } else { 2 + rng.below(3) as usize };
+        let set = gen_linkset(&mut rng, k, false);
+        let exp = link_expect(&set.files);
+        let texts: Vec<String> = set.files.iter().map(|f| render(&mut rng, f)).collect();
+        let mut prelude = String::new(); let mut asm_ok = true; let mut dumps = vec![];
+        for (i, t) in texts.iter().enumerate() { let l = format!("asm f{i} 1 {}", hx(t)); let r = run(out, ex, &l); prelude.push_str(&l); prelude.push('\n'); if !r.starts_with("ok ") { out.fail(out.lines, format!("file {i} of a link set rejected: {r} :: {t:?}"), l.clone()); asm_ok = false; } dumps.push(r); }
+        if !asm_ok { continue; }
+        for nt in &set.note { out.hist.hit(&format!("set_{}", nt.replace(' ', "_"))); }
+        let plans = link_plans(k, &mut rng, if thorough { 40 } else { 12 });
+        let mut first: Option<String> = None;
+        for plan in &plans {
+            let mut res = String::new(); let mut replay = prelude.clone(); let mut failed = false;
+            for (dst, a, b) in plan { let l = format!("link {dst} {a} {b}"); let r = run(out, ex, &l); out.evaluations += 1; replay.push_str(&l); replay.push('\n'); if !r.starts_with("ok ") { failed = true; res = r; break; } res = r; }
+            if res.starts_with("panic") { out.fail(out.lines, format!("link panicked: {res}"), replay.clone()); continue; }
+            if failed == exp.ok { out.fail(out.lines, format!("link success={} but expected success={} ({:?}): {}", !failed, exp.ok, set.note, res.chars().take(100).collect::<String>()), replay.clone()); continue; }
+            out.hist.hit(if failed { "link_rejected" } else { "link_ok" });
+            if failed { continue; }
+            if !debug_info {
+                let img = image_of(&res);
+                if img != exp.image { let diff: Vec<String> = exp.image.iter().filter(|(a, w)| img.get(a) != Some(w)).take(4).map(|(a, w)| format!("x{:04X}: got {:?} want {:?}", a, img.get(a), w)).collect(); out.fail(out.lines, format!("linked image is not the union with externals resolved: {:?} ({:?})", diff, set.note), replay.clone()); }
+                let labels: BTreeMap<String, (u16, bool)> = dump_labels(&res).into_iter().map(|(n, a, _, e)| (n, (a, e))).collect();
+                if labels != exp.labels { out.fail(out.lines, format!("linked label table {:?}, expected {:?}", labels, exp.labels), replay.clone()); }
+                let mut rel = dump_rel(&res); rel.sort(); if rel != exp.rel { out.fail(out.lines, format!("pending relocations {:?}, expected {:?}", rel, exp.rel), replay.clone()); }
+                let canon = format!("{:?}|{:?}|{:?}", img, labels, rel);
+                match &first { None => first = Some(canon), Some(f) => if *f != canon { out.fail(out.lines, "two link orders gave different results".into(), replay.clone()); } }
+            } else {
+                // C22: every mapped address reads the same source line as in its own file; label spans cover the label text
+                let last = plan.last().unwrap().0.clone();
+                let src = dump_src(&res).unwrap_or_default();
+                for (i, d) in dumps.iter().enumerate() {
+                    for (ln, addr) in dump_lines(d) {
+                        let want = run(out, ex, &format!("oq f{i} readline {ln}"));
+                        let l2 = run(out, ex, &format!("oq {last} revline {:04x}", addr)); out.evaluations += 1;
+                        let got = match l2.parse::<usize>() { Ok(l2) => run(out, ex, &format!("oq {last} readline {l2}")), Err(_) => format!("no-line({l2})") };
+                        if got != want { out.fail(out.lines, format!("after linking, the line of x{:04X} reads {:?}, in its own file {:?}", addr, unhex_str(got.trim_start_matches("ok ")), unhex_str(want.trim_start_matches("ok "))), format!("{replay}oq {last} revline {:04x}", addr)); }
+                    }
+                }
+                for (name, _, _, _) in dump_labels(&res) {
+                    let sp = run(out, ex, &format!("oq {last} src {}", hx(&name))); out.evaluations += 1;
+                    match sp.split_once("..").and_then(|(a, b)| Some((a.parse::<usize>().ok()?, b.parse::<usize>().ok()?))) {
+                        Some((a, b)) if a <= b && b <= src.len() && src.is_char_boundary(a) && src.is_char_boundary(b) && up(&src[a..b]) == name => {}
+                        other => out.fail(out.lines, format!("after linking, get_label_source({name}) = {sp} covers {:?} in the combined source", other.and_then(|(a, b)| src.get(a..b))), format!("{replay}oq {last} src {}", hx(&name))),
+                    }
+                }
+            }
+        }
+        if seen.insert(texts.join("\u{1}")) { out.nontrivial += 1; }
+        out.hist.hit(&format!("files_{k}"));
+    }
+    out.rule = if debug_info { "pairs and triples of generated files with debug symbols (shared externals, touching blocks with a shared label, conflicting labels, overlapping blocks), linked in every order and bracketing; oracle: for every address with a line mapping in its own file, rev_lookup_line + read_line on the linked file give the same text; every label's get_label_source covers a spelling of the label in the combined source; all answers compared with the model".into() }
+        else { "sets of 2-4 generated files (labels unique per file; externals referring to other files' labels or to nobody; variations: the same name at different addresses, a block inside another file's block, touching blocks with the same label at the seam, the same block start), linked in every permutation, left- and right-nested (and balanced for 4); oracle: success iff blocks are disjoint and no label has two addresses; image = union with every .fill of a defined external replaced; labels, external flags and pending relocations as computed from the set; identical across orders; all dumps compared with the model".into() };
+}
+
+/// sprinkle comments / blank lines with awkward characters into a source text (only where the lexer allows anything)
+pub fn awkward_source(rng: &mut Rng, text: &str) -> String {
+    let junk = |rng: &mut Rng| -> String { (0..rng.below(10)).map(|_| *rng.pick(&['"', '\\', '\t', '\'', ' ', '|', '=', '#', '.', 'é', '→', '😀', '\u{7f}', '\u{1}', '\u{0}', '\r', '\u{a0}', '\u{2028}', 'a', '?', '{', '}', 'u', 'x', '0', 'n'])).collect() };
+    let mut out = String::new();
+    for l in text.split_inclusive('\n') {
+        if rng.chance(1, 5) { out.push_str(&" ".repeat(rng.below(4) as usize)); if rng.bool() { out.push(';'); out.push_str(&junk(rng).replace('\n', "")); } out.push_str(if rng.chance(1, 3) { "\r\n" } else { "\n" }); }
+        if rng.chance(1, 6) && l.ends_with('\n') && !l.contains('"') { let body = l.trim_end_matches(['\n', '\r']); out.push_str(body); out.push_str(" ;"); out.push_str(&junk(rng)); out.push_str(if l.ends_with("\r\n") { "\r\n" } else { "\n" }); } else { out.push_str(l); }
+    }
+    if rng.chance(1, 4) { out.push_str(&" \t".repeat(rng.below(3) as usize)); }
+    if rng.chance(1, 4) { out.push(';'); out.push_str(&junk(rng)); }
+    out
+}
+
+/// produce an object in slot `o`: assembled (with/without debug, with externals) or linked; returns the replay prelude
+pub fn make_object(out: &mut Out, ex: &mut Exec, rng: &mut Rng, i: u64) -> Option<(String, &'static str)> {
+    match i % 4 {
+        0 | 1 => { let stmts = gen_single(rng, 20, true); let t0 = render(rng, &stmts); let text = awkward_source(rng, &t0); let dbg = if i % 4 == 0 { 1 } else { rng.below(2) };
+            let l = format!("asm o {dbg} {}", hx(&text)); let r = run(out, ex, &l); if !r.starts_with("ok ") { out.fail(out.lines, format!("well-formed program rejected: {r} :: {text:?}"), l); return None; } Some((l + "\n", if dbg == 1 { "assembled_debug" } else { "assembled_plain" })) }
+        2 => { let text = *rng.pick(&["", ".orig x3000\n.end", ";only a comment", ".external Q", ".orig x3000\n.blkw 3\n.end\n\n\n", "\n\n", " ", ".orig x0\nA .fill a\n.end"]); let l = format!("asm o 1 {}", hx(text)); let r = run(out, ex, &l); if !r.starts_with("ok ") { return None; } Some((l + "\n", "tiny")) }
+        _ => { let k = 2 + rng.below(2) as usize; let set = gen_linkset(rng, k, false); if !link_expect(&set.files).ok { return None; }
+            let mut pre = String::new(); for (j, f) in set.files.iter().enumerate() { let t0 = render(rng, f); let t = awkward_source(rng, &t0); let dbg = if rng.chance(1, 4) { 0 } else { 1 }; let l = format!("asm f{j} {dbg} {}", hx(&t)); let r = run(out, ex, &l); pre.push_str(&l); pre.push('\n'); if !r.starts_with("ok ") { out.fail(out.lines, format!("link-set file rejected: {r}"), l); return None; } }
+            let mut acc = "f0".to_string(); for j in 1..k { let dst = if j + 1 == k { "o".to_string() } else { format!("t{j}") }; let l = format!("link {dst} {acc} f{j}"); let r = run(out, ex, &l); pre.push_str(&l); pre.push('\n'); if !r.starts_with("ok ") { out.fail(out.lines, format!("link failed: {r}"), pre.clone()); return None; } acc = dst; }
+            Some((pre, "linked")) }
+    }
+}
+
+/// C17 (binary) / C18 (text): serialize → deserialize gives the same object file
+pub fn c17(out: &mut Out, ex: &mut Exec, seed: u64, thorough: bool, text_fmt: bool) {
+    let mut rng = Rng::new(seed); let n = if thorough { 40_000 } else { 2_500 };
+    let (ser, de) = if text_fmt { ("tser", "tde") } else { ("bser", "bde") };
+    for i in 0..n {
+        let Some((pre, kind)) = make_object(out, ex, &mut rng, i) else { continue };
+        let orig = run(out, ex, "odump o");
+        let s = run(out, ex, &format!("{ser} o")); out.evaluations += 1;
+        if s.starts_with("panic") || s == "unframed" { out.fail(out.lines, format!("serialize failed: {s}"), format!("{pre}{ser} o")); continue; }
+        let back = run(out, ex, &format!("{de} p {s}"));
+        if back != format!("ok {orig}") { out.fail(out.lines, format!("{} round trip changed the object file ({kind}): before `{}` after `{}`", if text_fmt { "text" } else { "binary" }, orig.chars().take(400).collect::<String>(), back.chars().take(400).collect::<String>()), format!("{pre}{ser} o\n{de} p {s}")); }
+        else { out.hist.hit(&format!("roundtrip_{kind}")); }
+        // the real writer's own bytes (not the canonicalised ones), through the real reader
+        if let Some(o) = ex.objs.get("o") {
+            use lc3_ensemble::asm::encoding::{BinaryFormat, ObjFileFormat, TextFormat};
+            let same = crate::util::catch(|| if text_fmt { TextFormat::deserialize(&TextFormat::serialize(o)).as_ref() == Some(o) } else { BinaryFormat::deserialize(&BinaryFormat::serialize(o)).as_ref() == Some(o) });
+            if same != Ok(true) { out.fail(out.lines, format!("deserialize(serialize(o)) != o on the implementation ({kind}): {:?}", same), format!("{pre}{ser} o")); }
+        }
+        if orig.contains("R[") && !orig.contains("R[]") { out.hist.hit("with_relocations"); }
+        if orig.contains("S[none]") { out.hist.hit("no_symbol_table"); } else if orig.contains("D[none]") { out.hist.hit("symbols_without_debug"); } else { out.hist.hit("debug_symbols"); }
+        out.nontrivial += 1;
+    }
+    out.rule = format!("object files from generated programs (externals, .external anywhere, .blkw, several blocks; sources with comments and blank lines holding quotes, backslashes, tabs, CR, NUL, DEL, NBSP, U+2028, non-ASCII and emoji; CRLF; whitespace-only lines), assembled with and without debug symbols, tiny/empty programs, and results of linking 2-3 files; {} serialization compared with the model's, read back by implementation and model; oracle: the object read back equals the original (dump of blocks, labels with source positions and external flags, relocations, line map, source text) and PartialEq on the implementation", if text_fmt { "text" } else { "binary (label and relocation chunks sorted, their order is unspecified)" });
+}
+
+/// C19: reading untrusted object files never panics (nor does using what was read)
+pub fn c19(out: &mut Out, ex: &mut Exec, seed: u64, thorough: bool) {
+    let mut rng = Rng::new(seed); let n = if thorough { 120_000 } else { 6_000 };
+    run(out, ex, &format!("asm base 1 {}", hx(".orig x3000\nA ADD R0,R0,#1\n.fill X\n.external X\nB .blkw 2\n.end\n.orig x5000\nC .stringz \"hi\"\n.end\n")));
+    run(out, ex, &format!("asm defx 1 {}", hx(".orig x6000\nX .fill 7\n.end\n")));
+    let after = |out: &mut Out, ex: &mut Exec, replay: &str| {
+        for l in ["bser p", "tser p", "link q p base", "link q base p", "link q p defx", "link q p p", "sim new 0 0 0 0 0", "oload p", "oq p lookup 41", "oq p rev 3000", "oq p line 1"] {
+            let r = run(out, ex, l); out.evaluations += 1;
+            if r.starts_with("panic") { out.fail(out.lines, format!("`{l}` on a deserialized object file panicked: {r}"), format!("{replay}\n{l}")); }
+        }
+    };
+    for i in 0..n {
+        let (pre, base_bin, base_txt) = { let mut r2 = Rng::new(seed ^ (i / 8)); match make_object(out, ex, &mut r2, i / 8) { Some((p, _)) => { let b = ex.line("bser o"); let t = ex.line("tser o"); (p, b, t) } None => (String::new(), "-".into(), "-".into()) } };
+        let _ = pre;
+        let line = match i % 4 {
+            0 => { // mutated binary
+                let mut b = crate::c25::unhex(&base_bin).unwrap_or_default();
+                for _ in 0..1 + rng.below(3) { if b.is_empty() { break; } let p = rng.below(b.len() as u64) as usize; match rng.below(7) { 0 => b[p] = rng.below(256) as u8, 1 => { b.truncate(p); } 2 => b.insert(p, rng.below(6) as u8), 3 => { b.remove(p); } 4 => b[p] = *rng.pick(&[0u8, 1, 2, 3, 4, 5, 0xFF, 0x7F, 0x80]), 5 => { let q = (p + 8).min(b.len()); for x in &mut b[p..q] { *x = 0xFF; } } _ => { let chunk: Vec<u8> = b[p..(p + 24).min(b.len())].to_vec(); b.extend(chunk); } } }
+                out.hist.hit("mutated_binary"); format!("bde p {}", hexs(&b)) }
+            1 => { // random / hand-shaped binary
+                let mut b = vec![0x6F, 0x62, 0x6A, 0x21, 0x10, 0x00, 0x01];
+                for _ in 0..rng.below(5) { match rng.below(6) {
+                    0 => { let a = *rng.pick(&[0u16, 0x3000, 0xFFFE, 0xFFFF, 0xFE00, 0x3001]); let len = *rng.pick(&[0u16, 1, 2, 3]); b.push(0); b.extend(a.to_le_bytes()); b.extend(len.to_le_bytes()); for _ in 0..len { b.push(*rng.pick(&[0xFFu8, 0, 1])); b.extend(rng.u16().to_le_bytes()); } }
+                    1 => { let name = *rng.pick(&["A", "", "X", "é", "LONGNAME"]); b.push(1); b.extend(rng.u16().to_le_bytes()); b.push(rng.below(3) as u8); b.extend(rng.pick(&[0u64, 5, u64::MAX, 1 << 40]).to_le_bytes()); b.extend((name.len() as u64).to_le_bytes()); b.extend(name.as_bytes()); }
+                    2 => { let len = rng.below(4) as u16; b.push(2); b.extend(rng.pick(&[0u64, 1, 3, u64::MAX, u64::MAX - 1, 1 << 63]).to_le_bytes()); b.extend(len.to_le_bytes()); let mut a = rng.u16(); for _ in 0..len { b.extend(a.to_le_bytes()); a = a.wrapping_add(rng.below(3) as u16); } }
+                    3 => { let s = *rng.pick(&["", "a\nb", "x\n\n", "é"]); b.push(3); b.extend((s.len() as u64).to_le_bytes()); b.extend(s.as_bytes()); }
+                    4 => { let name = *rng.pick(&["X", "A", "NOBODY", ""]); b.push(4); b.extend(rng.pick(&[0x3001u16, 0x0000, 0xFFFF, 0x2FFF, 0x3003]).to_le_bytes()); b.extend((name.len() as u64).to_le_bytes()); b.extend(name.as_bytes()); }
+                    _ => { b.push(rng.below(256) as u8); for _ in 0..rng.below(12) { b.push(rng.below(256) as u8); } } } }
+                out.hist.hit("shaped_binary"); format!("bde p {}", hexs(&b)) }
+            2 => { // mutated text
+                let t = unhex_str(&base_txt); let mut ls: Vec<String> = t.split('\n').map(|x| x.to_string()).collect();
+                for _ in 0..1 + rng.below(3) { if ls.is_empty() { break; } let p = rng.below(ls.len() as u64) as usize; match rng.below(9) { 0 => { ls.remove(p); } 1 => { let l = ls[p].clone(); ls.insert(p, l); } 2 => { let q = rng.below(ls.len() as u64) as usize; ls.swap(p, q); } 3 => ls[p] = "====================".into(), 4 => ls[p] = rng.pick(&[".TEXT", ".SYMBOL", ".DEBUG", ".LINKER_INFO", ".BOGUS", "", "#x", "LABEL | INDEX", "LINE | ADDR | SOURCE", "0 | ???? | \\", "0 | ???? | \\u{110000}", "0 | ???? | \\u{}", "0 | ???? | \\xZZ", "0 | ???? | \\9", "FFFF", "65536", "+1", "0000 | 300 | X"]).to_string(),
+                    5 => { let mut cs: Vec<char> = ls[p].chars().collect(); if !cs.is_empty() { let q = rng.below(cs.len() as u64) as usize; cs[q] = *rng.pick(&['|', ' ', '0', 'F', '?', '=', '\\', 'é', '9', '+', '-']); } ls[p] = cs.into_iter().collect(); }
+                    6 => { ls.truncate(p); } 7 => ls[p].push_str(*rng.pick(&[" ", " | ", " | x", "\r", "0"])), _ => { let l = ls[p].clone(); ls[p] = l.replace("????", "3000"); } } }
+                out.hist.hit("mutated_text"); format!("tde p {}", hx(&ls.join("\n"))) }
+            _ => { // random text
+                let words = ["LC-3 OBJ FILE", ".TEXT", ".SYMBOL", ".LINKER_INFO", ".DEBUG", "3000", "1", "2", "F025", "????", "ADDR | EXT | LABEL", "0000 |   1 | X", "ADDR | LABEL", "3001 | X", "LABEL | INDEX", "X     | 10", "====================", "LINE | ADDR | SOURCE", "0    | 3000 | a\\n", "1    | ???? | ", "0    | 3000 | \\u{41}\\t\\\"", "# c", "", " ", "zzz", "0    | 3001 | b", "1    | 3000 | c"];
+                let k = rng.below(14); let t: Vec<&str> = (0..k).map(|_| *rng.pick(&words)).collect();
+                out.hist.hit("random_text"); format!("tde p {}", hx(&t.join(*rng.pick(&["\n", "\n", "\r\n"])))) }
+        };
+        let r = run(out, ex, &line); out.evaluations += 1;
+        if r.starts_with("panic") { out.fail(out.lines, format!("deserialize panicked: {r}"), line.clone()); continue; }
+        if r.starts_with("ok ") { out.hist.hit("accepted"); after(out, ex, &line); } else { out.hist.hit("rejected"); }
+        out.nontrivial += 1;
+    }
+    out.rule = "four input streams: valid binary serializations with 1-3 byte-level mutations (overwrite, truncate, insert, delete, 0xFF runs, duplicated tails); hand-shaped binary files (blocks at xFFFE/xFFFF, labels with huge positions, line blocks at line numbers near 2^64 and 2^63, duplicate/unsorted line addresses, relocations pointing anywhere, invalid UTF-8 via random chunks); valid text serializations with 1-3 line-level mutations (delete/duplicate/swap lines, extra or missing dividers, header swaps, bad escapes, column edits); random sequences of format lines. Every accepted result is re-serialized in both formats, linked with assembled files in both orders and with itself, loaded into a simulator and queried; oracle: no panic anywhere; every answer also compared with the model".into();
 }
